@@ -34,6 +34,60 @@ def build(tier: str) -> list[Obligation]:
     return obs
 
 
+def sc_setcallback_race(prequeued=1, after=1, end="close", endmarker=True):
+    """the receiver thread delivers `after` more items and then the end of the channel while a user thread calls setcallback
+    at any moment (any interleaving at the granularity of one shared access).  end="eof": the real BaseGateway._thread_receiver
+    runs with Message.from_io raising EOFError at once, i.e. its whole end-of-connection epilogue."""
+    import z3
+
+    from vlib import e2
+    from vlib.py2ts import INT0
+
+    sc = e2.ChannelScenario(f"setcallback_race[pre={prequeued},after={after},{end},em={endmarker}]", prequeued=prequeued)
+    names = list(sc.ITEMS[: prequeued + after])
+    body = ""
+    for n in names[prequeued:]:
+        body += f"    with gw._receivelock:\n        f._local_receive(1, {n})\n"
+    endcall = {"close": "f._local_close(1)", "last": "f._local_close(1, sendonly=True)", "closeerr": "f._local_close(1, RemoteError('x'))", "eof": "gw._thread_receiver()"}[end]
+    if end == "eof":
+        body += f"    {endcall}\n"
+    else:
+        body += f"    with gw._receivelock:\n        {endcall}\n"
+    args = ["gw", "f"] + names[prequeued:]
+    sc.add("receiver", f"def p({', '.join(args)}):\n" + body + "    G.recv_done = 1\n", args)
+    if endmarker:
+        sc.add("user", "def p(ch, CB, END):\n    ch.setcallback(CB, endmarker=END)\n    try:\n        x = ch.receive(None)\n        G.receive_allowed = 1\n    except OSError:\n        G.refused = 1\n", ["ch", "CB", "END"])
+    else:
+        sc.add("user", "def p(ch, CB):\n    ch.setcallback(CB)\n    try:\n        x = ch.receive(None)\n        G.receive_allowed = 1\n    except OSError:\n        G.refused = 1\n", ["ch", "CB"])
+    want = names + (["END"] if endmarker else [])
+    sc.bad += [
+        ("custom", "callback_sequence_wrong", lambda enc, K: z3.And(z3.Not(enc.can_move(K)), z3.Not(sc.seen_is(enc, K, want))), lambda g, d, b: g.get("seen") != want),
+        ("flag", "receive_allowed"), ("blocked", "user"), ("blocked", "receiver"),
+    ]
+    sc.good_flags += ["recv_done", "refused"]
+    sc.observed += ["recv_done", "refused", "receive_allowed"]
+    return sc.finish()
+
+
+def e2_specs(tier):
+    out = []
+    thorough = tier == "thorough"
+    combos = []
+    for end in ("close", "last", "closeerr", "eof"):
+        combos.append((1, 1, end, True))
+    combos += [(0, 2, "close", True), (1, 1, "close", False), (2, 0, "close", True)]
+    if thorough:
+        combos += [(p, a, e, m) for p in (0, 1, 2) for a in (1, 2) for e in ("close", "last", "eof") for m in (True, False) if p + a <= 3]
+    seen = set()
+    for p_, a_, e_, m_ in combos:
+        if (p_, a_, e_, m_) in seen:
+            continue
+        seen.add((p_, a_, e_, m_))
+        out.append({"module": "props.c10", "factory": "sc_setcallback_race", "args": {"prequeued": p_, "after": a_, "end": e_, "endmarker": m_}, "K": 0,
+                    "name": f"setcallback_race[pre={p_},after={a_},{e_},em={m_}]", "timeout": 3000 if thorough else 600, "validate": 3, "depth_probes": 200})
+    return out
+
+
 def signature(o: Obligation, cex: dict, detail: str) -> str:
     m = o.meta
     if "multichannel" in m:
@@ -45,7 +99,10 @@ def run(tier: str) -> Outcome:
     fns = describe_functions([gb.Channel.setcallback, gb.ChannelFactory._local_receive, gb.ChannelFactory._local_close,
                                gb.ChannelFactory._no_longer_opened, gb.ChannelFactory._finished_receiving, gb.Channel.receive,
                                gb.BaseGateway._thread_receiver, multi.MultiChannel.make_receive_queue])
-    return e1.run_e1(
+    from vlib import e2run
+
+    e2out = e2run.outcome_from("C10", tier, e2run.run_scenarios(e2_specs(tier)), fns, [], "", [], "", "C10")
+    out = e1.run_e1(
         "C10", tier, build(tier), signature, fns,
         stubs=[
             "gateway_base's sys.stderr swallows warnings inside harnesses",
@@ -56,13 +113,27 @@ def run(tier: str) -> Outcome:
         bounds=("0,2,3 (thorough 0-5) items then close / last-message / close-error / connection loss; the moment of setcallback symbolic over "
                 "every position of the history (before, between, after items, after the end, after connection loss); endmarker requested or not "
                 "symbolic; MultiChannel queue over 2 members with enumerated item counts"),
-        outside=["a local close() racing setcallback (not under the receive lock) and the atomicity premise itself: schedule part",
+        outside=["a local close() racing setcallback (local close is not one of the endings the statement lists)",
                  "callbacks that call back into the channel API"],
         explanation=("bounded symbolic execution of the real setcallback hand-over (queue drain + registration) and endmarker logic over frame "
                      "histories with a symbolic setcallback position: callback sequence = all items once, in order, then the endmarker "
-                     "exactly once iff requested; receive() and a second setcallback are refused"),
+                     "exactly once iff requested; receive() and a second setcallback are refused; E2 (bounded model checking): the real setcallback / "
+                     "_local_receive / _local_close / _no_longer_opened / _finished_receiving compiled to automata, a user thread calling setcallback races the "
+                     "receiver thread's handlers at the granularity of single shared accesses: in every schedule the callback sees all items once, in order, then "
+                     "the endmarker once (iff requested), and receive() is refused afterwards"),
     )
+    e2run.merge_into(out, e2out, "e2_setcallback_vs_receiver_thread",
+                     "E2 part: queue.Queue = FIFO with blocking get / Empty, channel and callback tables = finite maps, callback = stub recording its argument, "
+                     "loads_internal = identity; handlers are called under gateway._receivelock exactly as _thread_receiver's loop does")
+    return out
 
 
 def replay(rep: dict):
+    if rep.get("engine") == "E2":
+        from vlib import e2run
+
+        sc = sc_setcallback_race(**rep["scenario"]["args"])
+        ghost, done, blocked, sched = sc.replay([tuple(x) for x in rep["order"]], mode=rep.get("mode", "sync"))
+        hits = e2run.real_bad(sc.bad, ghost, done, blocked)
+        return bool(hits) and not sched.diverged, f"hits={hits} seen={ghost.get('seen')} diverged={sched.diverged}"
     return e1.replay_entry(rep)
